@@ -80,7 +80,53 @@ def prog_productions(prog):
         if t.kind in ("struct", "outstruct"):
             for fn, ft in t.fields:
                 api.ty_productions(prog, ft, "field", out)
+    # how an optional borrowed parameter's lifetime is used by the rest of the signature (known finding F2 is about one of these only)
+    for t, m in prog.methods():
+        for pn, pt in m.params:
+            if pt[0] != "opt" or pt[1][0] not in ("slice", "str", "struct"):
+                continue
+            lts = type_lifetimes(prog, pt[1])
+            if not lts:
+                continue
+            rl = type_lifetimes(prog, m.ret)
+            others = set()
+            for qn, qt in m.params:
+                if qn != pn:
+                    others |= type_lifetimes(prog, qt)
+            kind = {"slice": "slice", "str": "str", "struct": "struct"}[pt[1][0]]
+            if lts & rl:
+                out["optlt:borrowed by the return:Option<%s>" % kind] += 1
+            elif lts & others:
+                out["optlt:shared with another parameter:Option<%s>" % kind] += 1
+            else:
+                out["optlt:alone:Option<%s>" % kind] += 1
     return out
+
+
+def type_lifetimes(prog, t):
+    """named lifetimes mentioned by a type tuple"""
+    k = t[0]
+    if k == "slice":
+        return {t[3]} - {None, "static"}
+    if k == "str":
+        return {t[2]} - {None, "static"}
+    if k == "oref":
+        return {t[3]} - {None, "static"}
+    if k == "opt":
+        return type_lifetimes(prog, t[1])
+    if k == "result":
+        return type_lifetimes(prog, t[1]) | type_lifetimes(prog, t[2])
+    if k == "struct":
+        try:
+            return {"a"} if prog.find(t[1]).lifetimes else set()
+        except KeyError:
+            return set()
+    if k == "obox":
+        try:
+            return {"a"} if prog.find(t[1]).lifetimes else set()
+        except KeyError:
+            return set()
+    return set()
 
 
 def write_program(prog, d, config_text=None, bodies=False):
